@@ -654,10 +654,18 @@ class Register_(ConnSpec):
 
 
 class Register(ConnSpec):
+    """Connection.register (called by the persistence machinery when an object is first modified): the decision
+    table below holds for a HISTORICAL connection exactly as for a live one - a modification made through a historical
+    connection is registered like any other, which is what makes its commit reach _commit and fail there (C15), and
+    what lets abort revert it."""
     func = CONN + '.register'
+    props = ('C11', 'C15')
+    cases = ('live', 'historical')
 
     def setup(self, c, case=None):
         w = CM.mk_conn(c)
+        if case == 'historical':
+            c.obj(w.self).f['before'] = c.fresh_bytes(8, 'before')
         return {'self': w.self, 'obj': CM.fresh_pobj(c)}
 
     def requires(self, c, E):
